@@ -179,8 +179,19 @@ def run_case(sh, s, d, case):
         for _ in range(rnd.choice([5, 50, 300])):
             x = [x]
         return x
+    # weak references to brand-new objects that are also strongly reachable, attached *before* the strong edges so that
+    # the weak reference is pickled first (within a record, and across records depending on the traversal order)
+    early_weak = 0
+    for nd in nodes[:R]:
+        if nd['kind'] in ('cell', 'args', 'dyn') and rnd.random() < 0.25:
+            t = rnd.randrange(R)
+            real[nd['k']].refs['a-weak%d' % t] = persistent.wref.WeakRef(real[t])
+            nd['edges'].insert(0, ('weak', 'direct', t))
+            early_weak += 1
     for nd in nodes:
         for i, (ek, form, t) in enumerate(nd['edges']):
+            if ek == 'weak':
+                continue
             attach(real[nd['k']], nd, 'e%d' % i, wrap(form, real[t]))
     tm.begin()
     c.root()['g'] = real[0]
@@ -188,7 +199,8 @@ def run_case(sh, s, d, case):
         c.add(real[k])
     tm.commit()
     sh.count('graphs')
-    nonstrong = 0
+    sh.count('weak_refs_to_new_objects', early_weak)
+    nonstrong = early_weak
     # second transaction: weak and cross-database references onto committed objects
     tm.begin()
     stored_k = set()
@@ -314,7 +326,7 @@ def run_case(sh, s, d, case):
         elif kd == 'pmap':
             vals = [v for n, v in sorted(o.items()) if n != 'payload']
         else:
-            vals = [v for n, v in sorted(o.refs.items(), key=lambda x: (x[0][0] != 'e', x[0]))]
+            vals = [v for n, v in sorted(o.refs.items())]
         out = []
 
         def walk(v):
